@@ -59,6 +59,22 @@ func VerifSymTokens(k int) []lexer.Token {
 	return toks
 }
 
+// VerifBodyTokens: the tokens `grammar IDENT IDENT =`, then k arbitrary tokens, then `;` - a
+// specification with one rule whose body is arbitrary (deeper operator nesting for the same k).
+func VerifBodyTokens(k int) []lexer.Token {
+	body := VerifSymTokens(k)
+	fixed := []string{"grammar", "IDENT", "IDENT", "="}
+	toks := make([]lexer.Token, 0, k+5)
+	mk := func(kind string, i int) lexer.Token {
+		return lexer.Token{Terminal: grammar.Terminal(kind), Lexeme: "f" + vitoa(i), Pos: lexer.Position{Filename: "f", Offset: 1000 + i, Line: 50 + i, Column: 3}}
+	}
+	for i, kd := range fixed {
+		toks = append(toks, mk(kd, i))
+	}
+	toks = append(toks, body...)
+	return append(toks, mk(";", 9))
+}
+
 var verifLexer lexer.Lexer
 
 // VerifSetLexer makes the next parser built through VerifNew read from the given tokens.
@@ -116,7 +132,16 @@ func sameTree(n parser.Node, r *rnode, toks []lexer.Token) bool {
 // the shape the documented precedence prescribes.
 func harnessC11Generic() {
 	k := verif.Len("k", 0, lrTreeK)
-	toks := symTokens(k)
+	checkGenericTree(symTokens(k))
+}
+
+// harnessC11GenericBody: the same for one rule with an arbitrary body of up to lrBodyK tokens.
+func harnessC11GenericBody() {
+	k := verif.Len("k", 0, lrBodyK)
+	checkGenericTree(VerifBodyTokens(k))
+}
+
+func checkGenericTree(toks []lexer.Token) {
 	p := &Parser{L: &stubLexer{toks: toks, failAt: -1}}
 	root, err := p.ParseAndBuildAST()
 	tree, _ := refParse(kindsOf(toks))
